@@ -27,6 +27,8 @@ def gen_scenario(rng, tier, multi):
     nfiles = rng.choice([2, 3, 4]) if multi else 1
     scn = gen.gen_run_scenario(rng, tier, nfiles=nfiles)
     scn['_twice'] = rng.random() < 0.4
+    if rng.random() < 0.15:
+        scn['_spell'] = rng.choice(['//', '/./'])
     if scn['_twice'] and rng.random() < 0.5:
         # between the two runs another search is registered on the same searcher
         extra = gen.gen_simple_def(rng) if rng.random() < 0.7 else gen.gen_seq_def(rng)
@@ -86,7 +88,7 @@ def run_impl(scn):
         second = None
         if scn.get('_twice'):
             for di, fi in scn.get('_late_regs', []):
-                fs.add(built.defs[di], os.path.join(tmpdir, scn['files'][fi]['name']))
+                fs.add(built.defs[di], tmpdir + scn.get('_spell', '/') + scn['files'][fi]['name'])
             second = S.run_searcher(built, fs, K)
         return {'first': first, 'second': second}
     finally:
